@@ -133,6 +133,8 @@ DetObl(e) == <<
   <<"blind-changes-request", \A p \in reqTab : (NoBlind([t |-> p[1][1], key |-> p[1][2], nc |-> p[1][3], salt |-> p[1][5]]) = NoBlind(e)
                                                 /\ p[1][4] # e.blind) => p[2] # e.req>>,
   <<"token-ignores-blind", e.ok => \A p \in tokTab : p[1] = NoBlind(e) => p[2] = e.tok>>,
+  \* finalizing the same state again (a retry) gives the same token or an error, never another token
+  <<"token-ignores-run", e.refin \in {"none", "same", "error"}>>,
   \* a blinded element is a function of (key, nonce, blind) wherever it stands in a batch, and of nothing else
   <<"element-is-function-of-its-own-blind", \A i \in 1..Len(e.elems) : \A p \in elemTab :
         (p[1] = <<e.t, e.key, e.elems[i][1], e.elems[i][2]>>) <=> (p[2] = e.elems[i][3])>> >>
